@@ -144,6 +144,10 @@ def all_cases(tier, seed):
         n = rnd.randint(1, 30)
         lst = [(rnd.choice(('deletion', 'insertion')), rnd.randint(1, 3), 0, 0, 1000 + k, 5, 9, float(rnd.randint(-9000, 9000))) for k in range(n)]
         lst = [c[:2] + (x, x + rnd.randint(100, 60000)) + c[4:] for c in lst for x in [rnd.randint(0, 200000)]]
+        # calls whose two flanking reference labels are far apart (a label-free stretch of the reference) and calls near the finders' upper size limit:
+        # the finders bound only |Length| (< 100 kb), the reference interval may have any width
+        rx = random.Random(seed * 977 + len(cs))
+        lst = [(c[:3] + (c[2] + rx.randint(100000, 400000),) + c[4:7] + (float(rx.choice((-1, 1)) * rx.randint(100, 99000)),)) if rx.random() < 0.15 else c for c in lst]
         lst = sorted(lst, key=operator.itemgetter(1, 3))
         cs.append(('cluster', (tuple(lst), 30000)))
         ins = tuple(c for c in lst if c[0] == 'insertion')
